@@ -110,6 +110,7 @@ def timeout(duration, func, *args, on_timeout=None, **kwargs):
                 # Student-defined exceptions may not accept new attributes
                 pass
             raise e.with_traceback(ei[2])
+        return target_thread.result
 
 
 # =========================================================================
